@@ -131,6 +131,42 @@ func c07EveryIteration(body Edge, header *ssa.BasicBlock, ins ...ssa.Instruction
 
 // ---------------------------------------------------------------- R1: index
 
+// c07MapOfE: v is a load of <root receiver>.<field> seen from node e (the
+// helper's own receiver resolves to the root's receiver).
+func c07MapOfE(v ssa.Value, field string, e *c05Env) bool {
+	u, ok := v.(*ssa.UnOp)
+	if !ok || u.Op != token.MUL || !c05IsFieldAddrOf(u.X, c07GraphT, field) {
+		return false
+	}
+	base := u.X.(*ssa.FieldAddr).X
+	r := e.root()
+	if len(r.Fn.Params) == 0 {
+		return false
+	}
+	w, at := e.up(base)
+	return at.isRoot() && w == ssa.Value(r.Fn.Params[0])
+}
+
+// c07KeyOfE: v (seen from e) is descriptor.FromOCI(x) with x satisfying of.
+func c07KeyOfE(v ssa.Value, e *c05Env, of func(x ssa.Value, at *c05Env) bool) bool {
+	w, at := e.up(v)
+	rs := Roots(c05Unspill(w))
+	if len(rs) == 0 {
+		return false
+	}
+	for _, r := range rs {
+		call, ok := strip(r).(*ssa.Call)
+		if !ok || CalleeName(call) != c07FromOCI || len(call.Call.Args) != 1 {
+			return false
+		}
+		x, xat := at.up(call.Call.Args[0])
+		if !of(x, xat) {
+			return false
+		}
+	}
+	return true
+}
+
 func c07R1Index(c *Ctx) {
 	const R = "C07.R1.inverse-relation"
 	c.Expect(R, 20)
@@ -146,6 +182,7 @@ func c07R1Index(c *Ctx) {
 	}
 	for _, fn := range fns {
 		tn := FnName(fn)
+		root := c05Root(fn)
 		node := c07DescParam(fn)
 		sc := CallsTo(fn, "~/content.Successors")[0]
 		S := ResultOf(sc, 0)
@@ -154,30 +191,39 @@ func c07R1Index(c *Ctx) {
 		if !okSrc {
 			continue
 		}
-		isNodeKey := func(v ssa.Value) bool { return c07IsKeyOf(v, c07IsParam(node)) }
+		isNode := func(x ssa.Value, at *c05Env) bool { return at.isRoot() && c05ParamOf(x) == node }
+		isNodeKey := func(v ssa.Value, e *c05Env) bool { return c07KeyOfE(v, e, isNode) }
 		// nodes[key(node)] = node and successors[key(node)] = fresh set, on every successful path
-		var nodesUpd, succUpd *ssa.MapUpdate
-		var succSet *ssa.Call
-		AllInstrs(fn, func(in ssa.Instruction) {
+		var succSets []ssa.Value
+		nodeRec := c05PassSpec{Instr: func(in ssa.Instruction, e *c05Env) bool {
 			mu, ok := in.(*ssa.MapUpdate)
-			if !ok || !isNodeKey(mu.Key) {
-				return
+			if !ok || !c07MapOfE(mu.Map, "nodes", e) || !isNodeKey(mu.Key, e) {
+				return false
 			}
-			if c07MapOf(mu.Map, "nodes") && c05ParamOf(mu.Value) == node {
-				nodesUpd = mu
+			x, at := e.up(mu.Value)
+			return isNode(x, at)
+		}}
+		succRec := c05PassSpec{Instr: func(in ssa.Instruction, e *c05Env) bool {
+			mu, ok := in.(*ssa.MapUpdate)
+			if !ok || !c07MapOfE(mu.Map, "successors", e) || !isNodeKey(mu.Key, e) {
+				return false
 			}
-			if c07MapOf(mu.Map, "successors") {
-				if n := c07IsSetNew(mu.Value); n != nil {
-					succUpd, succSet = mu, n
+			x, _ := e.up(mu.Value)
+			for _, r := range Roots(x) {
+				if c07IsSetNew(r) == nil {
+					return false
 				}
 			}
-		})
-		okN, okS := nodesUpd != nil, succUpd != nil
+			succSets = append(succSets, x)
+			return true
+		}}
+		nodeCut, succCut := c05PassCut(root, nodeRec), c05PassCut(root, succRec)
+		okN, okS := len(nodeCut.instrs) > 0, len(succCut.instrs) > 0
 		for _, a := range c05MaybeNilAtoms(fn) {
-			if okN && !c05AtomMustPass(a, newCut().Instr(nodesUpd)) {
+			if okN && !c05AtomMustPass(a, nodeCut) {
 				okN = false
 			}
-			if okS && !c05AtomMustPass(a, newCut().Instr(succUpd)) {
+			if okS && !c05AtomMustPass(a, succCut) {
 				okS = false
 			}
 		}
@@ -185,24 +231,16 @@ func c07R1Index(c *Ctx) {
 			ifelse(okN, "nodes[key(node)] = node on every successful path", "a successful index does not record nodes[key(node)] = node: Predecessors of its successors would yield an empty descriptor for it"))
 		c.Check(R, tn+"|fresh-successor-set-recorded", fn.Pos(), okS,
 			ifelse(okS, "successors[key(node)] = set.New() on every successful path", "a successful index does not install a fresh successors[key(node)] set: Remove cannot undo the node's edges (extras after delete)"))
-		// the loop over S
-		var loop *Loop
-		var idx ssa.Value
-		var body Edge
-		for _, l := range Loops(fn) {
-			if r, i, b, _, ok := l.RangeIndex(); ok && SameValue(r, S) {
-				loop, idx, body = l, i, b
-			}
-		}
+		// the loop over S (any loop form)
+		loop, idx, body := c05SliceLoop(fn, func(v ssa.Value) bool { return SameValue(v, S) })
 		if loop == nil {
 			if len(Loops(fn)) == 0 {
 				c.Violation(R, tn+"|loop-over-successors", fn.Pos(), "no loop over the successors: no edge is recorded")
 			} else {
-				c.Undecided(R, tn+"|loop-over-successors", fn.Pos(), "the loop over the successors slice is not a plain `for range successors` (shape not recognised)")
+				c.Undecided(R, tn+"|loop-over-successors", fn.Pos(), "no loop of the index step visits every element of the successors slice (range / index forms are recognised)")
 			}
 			continue
 		}
-		// loop must be executed on every successful path
 		okL := true
 		for _, a := range c05MaybeNilAtoms(fn) {
 			if !c05AtomMustPass(a, newCut().Instr(loop.Header.Instrs[0])) {
@@ -210,63 +248,103 @@ func c07R1Index(c *Ctx) {
 			}
 		}
 		c.Check(R, tn+"|loop-over-successors", blockPos(loop.Header), okL, "every successful path runs the loop over all successors")
-		isElem := func(v ssa.Value) bool {
-			for _, r := range Roots(c05Unspill(v)) {
+		isElem := func(x ssa.Value, at *c05Env) bool {
+			if !at.isRoot() {
+				return false
+			}
+			for _, r := range Roots(c05Unspill(x)) {
 				ld, ok := strip(r).(*ssa.UnOp)
 				if !ok || ld.Op != token.MUL {
 					return false
 				}
 				ia, ok := ld.X.(*ssa.IndexAddr)
-				if !ok || !SameValue(ia.X, S) || ia.Index != idx {
+				if !ok || !SameValue(ia.X, S) || !idx[ia.Index] {
 					return false
 				}
 			}
 			return true
 		}
-		isSuccKey := func(v ssa.Value) bool { return c07IsKeyOf(v, isElem) }
-		var addS, addP []ssa.Instruction
-		for _, call := range Calls(fn, func(string) bool { return true }) {
-			if !c07SetMethod(call, "Add") || !loop.Contains(call.(ssa.Instruction)) {
-				continue
+		isSuccKey := func(v ssa.Value, e *c05Env) bool { return c07KeyOfE(v, e, isElem) }
+		// where must a freshly created predecessor set be stored by: the end of the iteration / of the helper
+		iterEnds := func(e *c05Env) []ssa.Instruction {
+			if e.isRoot() {
+				return []ssa.Instruction{loop.Header.Instrs[0]}
 			}
-			a := call.Common().Args
-			if succSet != nil && SameValue(a[0], succSet) && isSuccKey(a[1]) {
-				addS = append(addS, call.(ssa.Instruction))
+			var out []ssa.Instruction
+			for _, r := range Returns(e.Fn) {
+				out = append(out, r)
 			}
-			if isNodeKey(a[1]) {
-				okRoots := true
-				for _, r := range Roots(a[0]) {
-					r = strip(r)
-					if e, isE := r.(*ssa.Extract); isE {
-						r = e.Tuple
-					}
-					if lk, isL := r.(*ssa.Lookup); isL && c07MapOf(lk.X, "predecessors") && isSuccKey(lk.Index) {
+			return out
+		}
+		addS := c05PassSpec{Instr: func(in ssa.Instruction, e *c05Env) bool {
+			call, ok := in.(*ssa.Call)
+			if !ok || !c07SetMethod(call, "Add") || !isSuccKey(call.Call.Args[1], e) {
+				return false
+			}
+			recv, at := e.up(call.Call.Args[0])
+			if !at.isRoot() {
+				return false
+			}
+			for _, ss := range succSets {
+				if SameValue(recv, ss) {
+					return true
+				}
+			}
+			return false
+		}}
+		addP := c05PassSpec{Instr: func(in ssa.Instruction, e *c05Env) bool {
+			call, ok := in.(*ssa.Call)
+			if !ok || !c07SetMethod(call, "Add") || !isNodeKey(call.Call.Args[1], e) {
+				return false
+			}
+			for _, r := range Roots(call.Call.Args[0]) {
+				r = strip(r)
+				if ex, isE := r.(*ssa.Extract); isE {
+					r = ex.Tuple
+				}
+				if lk, isL := r.(*ssa.Lookup); isL && c07MapOfE(lk.X, "predecessors", e) && isSuccKey(lk.Index, e) {
+					continue
+				}
+				if n := c07IsSetNew(r); n != nil {
+					stored := false
+					AllInstrs(e.Fn, func(in2 ssa.Instruction) {
+						// the fresh set is stored under key(successor) before the iteration ends (order w.r.t. Add is irrelevant: sets are references)
+						mu, ok := in2.(*ssa.MapUpdate)
+						if !ok || !c07MapOfE(mu.Map, "predecessors", e) || !isSuccKey(mu.Key, e) || !SameValue(mu.Value, n) {
+							return
+						}
+						all := true
+						for _, end := range iterEnds(e) {
+							if reach(n.Block(), instrIndex(n)+1, end, newCut().Instr(mu)) {
+								all = false
+							}
+						}
+						if all {
+							stored = true
+						}
+					})
+					if stored {
 						continue
 					}
-					if n := c07IsSetNew(r); n != nil {
-						stored := false
-						AllInstrs(fn, func(in ssa.Instruction) {
-							// the fresh set is stored under key(successor) before the iteration ends (order w.r.t. Add is irrelevant: sets are references)
-							if mu, ok := in.(*ssa.MapUpdate); ok && c07MapOf(mu.Map, "predecessors") && isSuccKey(mu.Key) && SameValue(mu.Value, n) &&
-								!reach(n.Block(), instrIndex(n)+1, loop.Header.Instrs[0], newCut().Instr(mu)) {
-								stored = true
-							}
-						})
-						if stored {
-							continue
-						}
-					}
-					okRoots = false
 				}
-				if okRoots {
-					addP = append(addP, call.(ssa.Instruction))
+				return false
+			}
+			return true
+		}}
+		inLoop := func(ct *cut) []ssa.Instruction {
+			var out []ssa.Instruction
+			for in := range ct.instrs {
+				if loop.Contains(in) {
+					out = append(out, in)
 				}
 			}
+			return out
 		}
-		okA := len(addS) > 0 && c07EveryIteration(body, loop.Header, addS...)
+		sIns, pIns := inLoop(c05PassCut(root, addS)), inLoop(c05PassCut(root, addP))
+		okA := len(sIns) > 0 && c07EveryIteration(body, loop.Header, sIns...)
 		c.Check(R, tn+"|successor-edge-every-iteration", blockPos(body.To), okA,
 			ifelse(okA, "successors[key(node)].Add(key(successor)) runs in every iteration", "an iteration can finish without recording key(successor) in successors[key(node)]: Remove would leave node in that successor's predecessor set (extra after delete)"))
-		okB := len(addP) > 0 && c07EveryIteration(body, loop.Header, addP...)
+		okB := len(pIns) > 0 && c07EveryIteration(body, loop.Header, pIns...)
 		c.Check(R, tn+"|predecessor-edge-every-iteration", blockPos(body.To), okB,
 			ifelse(okB, "predecessors[key(successor)].Add(key(node)) runs in every iteration on the stored set (created and stored when absent)", "an iteration can finish without adding key(node) to the stored predecessors[key(successor)] set: Predecessors(successor) omits node"))
 	}
@@ -282,8 +360,10 @@ func c07R1Remove(c *Ctx) {
 		return
 	}
 	tn := FnName(fn)
+	root := c05Root(fn)
 	node := c07DescParam(fn)
-	isNodeKey := func(v ssa.Value) bool { return c07IsKeyOf(v, c07IsParam(node)) }
+	isNode := func(x ssa.Value, at *c05Env) bool { return at.isRoot() && c05ParamOf(x) == node }
+	isNodeKey := func(v ssa.Value, e *c05Env) bool { return c07KeyOfE(v, e, isNode) }
 	var loop *Loop
 	var key ssa.Value
 	var body Edge
@@ -299,7 +379,7 @@ func c07R1Remove(c *Ctx) {
 				r = e.Tuple
 			}
 			lk, isL := r.(*ssa.Lookup)
-			if !isL || !c07MapOf(lk.X, "successors") || !isNodeKey(lk.Index) {
+			if !isL || !c07MapOfE(lk.X, "successors", root) || !isNodeKey(lk.Index, root) {
 				good = false
 			}
 		}
@@ -318,71 +398,107 @@ func c07R1Remove(c *Ctx) {
 		return
 	}
 	c.OK(R, tn+"|loop-over-own-successors", blockPos(loop.Header), "Remove ranges over successors[key(node)]")
-	isKey := func(v ssa.Value) bool { return strip(v) == key }
-	isEntry := func(v ssa.Value) bool {
-		for _, r := range Roots(v) {
+	isKey := func(v ssa.Value, e *c05Env) bool {
+		w, at := e.up(v)
+		return at.isRoot() && strip(w) == key
+	}
+	isEntry := func(v ssa.Value, e *c05Env) bool {
+		rs := Roots(v)
+		if len(rs) == 0 {
+			return false
+		}
+		for _, r := range rs {
 			r = strip(r)
-			if e, isE := r.(*ssa.Extract); isE {
-				r = e.Tuple
+			if ex, isE := r.(*ssa.Extract); isE {
+				r = ex.Tuple
 			}
 			lk, isL := r.(*ssa.Lookup)
-			if !isL || !c07MapOf(lk.X, "predecessors") || !isKey(lk.Index) {
+			if !isL || !c07MapOfE(lk.X, "predecessors", e) || !isKey(lk.Index, e) {
 				return false
 			}
 		}
 		return true
 	}
-	var dels []ssa.Instruction
-	var entry ssa.Value
-	skipOK := newCut() // an absent / nil entry has nothing to unlink
-	for _, call := range Calls(fn, func(string) bool { return true }) {
-		if c07SetMethod(call, "Delete") && loop.Contains(call.(ssa.Instruction)) && isEntry(call.Common().Args[0]) && isNodeKey(call.Common().Args[1]) {
-			dels = append(dels, call.(ssa.Instruction))
-			entry = call.Common().Args[0]
-			skipOK.Instr(call.(ssa.Instruction))
-			ne, _, _ := NilTests(fn, Aliases(entry))
-			skipOK.Edges(ne...)
-			if ex, isE := strip(entry).(*ssa.Extract); isE {
-				for _, r := range *ex.Tuple.Referrers() {
-					if e1, is1 := r.(*ssa.Extract); is1 && e1.Index == 1 {
-						_, fe := BoolTests(fn, Aliases(e1))
-						skipOK.Edges(fe...)
+	isUnlink := func(in ssa.Instruction, e *c05Env) bool {
+		call, ok := in.(*ssa.Call)
+		return ok && c07SetMethod(call, "Delete") && isEntry(call.Call.Args[0], e) && isNodeKey(call.Call.Args[1], e)
+	}
+	unlink := c05PassSpec{Instr: isUnlink,
+		// an absent / nil entry has nothing to unlink
+		Edges: func(e *c05Env) []Edge {
+			var out []Edge
+			AllInstrs(e.Fn, func(in ssa.Instruction) {
+				if !isUnlink(in, e) {
+					return
+				}
+				entry := in.(*ssa.Call).Call.Args[0]
+				ne, _, _ := NilTests(e.Fn, Aliases(entry))
+				out = append(out, ne...)
+				if ex, isE := strip(entry).(*ssa.Extract); isE {
+					for _, r := range *ex.Tuple.Referrers() {
+						if e1, is1 := r.(*ssa.Extract); is1 && e1.Index == 1 {
+							_, fe := BoolTests(e.Fn, Aliases(e1))
+							out = append(out, fe...)
+						}
 					}
 				}
-			}
+			})
+			return out
+		}}
+	uc := c05PassCut(root, unlink)
+	inLoopN := 0
+	for in := range uc.instrs {
+		if loop.Contains(in) {
+			inLoopN++
 		}
 	}
-	okD := len(dels) > 0 && !reach(body.To, 0, loop.Header.Instrs[0], skipOK)
+	okD := inLoopN > 0 && !reach(body.To, 0, loop.Header.Instrs[0], uc)
 	c.Check(R, tn+"|unlink-every-iteration", blockPos(body.To), okD,
 		ifelse(okD, "predecessors[successorKey].Delete(key(node)) runs in every iteration", "an iteration can finish without deleting key(node) from predecessors[successorKey]: Predecessors(successor) keeps reporting the removed node"))
-	// delete(m.predecessors, k): only the current key, only when its set is empty
+	// delete(m.predecessors, k): only the current key, only when its set is empty — in Remove or in a helper it calls
 	nDel := 0
-	for _, call := range CallsTo(fn, "builtin:delete") {
-		a := call.Common().Args
-		if !c07MapOf(a[0], "predecessors") {
-			continue
+	for _, e := range c05TreeEnvs(root, 3) {
+		for _, call := range CallsTo(e.Fn, "builtin:delete") {
+			a := call.Common().Args
+			if !c07MapOfE(a[0], "predecessors", e) {
+				continue
+			}
+			nDel++
+			var zero []Edge
+			AllInstrs(e.Fn, func(in ssa.Instruction) {
+				if isUnlink(in, e) {
+					zero = append(zero, lenZeroEdges(e.Fn, in.(*ssa.Call).Call.Args[0])...)
+				}
+			})
+			// also `len(entry) > 0` style tests: the false edge of "non-empty"
+			ok := isKey(a[1], e) && len(zero) > 0
+			if ok {
+				if e.isRoot() {
+					ok = loop.Contains(call.(ssa.Instruction)) && !reach(body.To, 0, call.(ssa.Instruction), newCut().Edges(zero...))
+				} else {
+					ok = MustPass(call.(ssa.Instruction), newCut().Edges(zero...))
+				}
+			}
+			c.Check(R, tn+"|entry-dropped-only-when-empty", call.Pos(), ok,
+				ifelse(ok, "delete(predecessors, successorKey) lies behind len(entry)==0 of the same entry", "a predecessors entry is dropped although other predecessors may remain (omissions) or for a different key"))
 		}
-		nDel++
-		ok := loop.Contains(call.(ssa.Instruction)) && isKey(a[1]) && entry != nil &&
-			!reach(body.To, 0, call.(ssa.Instruction), newCut().Edges(lenZeroEdges(fn, entry)...))
-		c.Check(R, tn+"|entry-dropped-only-when-empty", call.Pos(), ok,
-			ifelse(ok, "delete(predecessors, successorKey) lies behind len(entry)==0 of the same entry", "a predecessors entry is dropped although other predecessors may remain (omissions) or for a different key"))
 	}
 	if nDel == 0 {
 		c.OK(R, tn+"|entry-dropped-only-when-empty", fn.Pos(), "Remove never drops predecessors entries")
 	}
 	// finally successors[key(node)] and nodes[key(node)] are deleted
 	for _, fld := range []string{"successors", "nodes"} {
-		var dc ssa.Instruction
-		for _, call := range CallsTo(fn, "builtin:delete") {
-			a := call.Common().Args
-			if c07MapOf(a[0], fld) && isNodeKey(a[1]) && !loop.Contains(call.(ssa.Instruction)) {
-				dc = call.(ssa.Instruction)
+		fld := fld
+		ct := c05PassCut(root, c05PassSpec{Instr: func(in ssa.Instruction, e *c05Env) bool {
+			call, ok := in.(*ssa.Call)
+			if !ok || CalleeName(call) != "builtin:delete" {
+				return false
 			}
-		}
-		ok := dc != nil
+			return c07MapOfE(call.Call.Args[0], fld, e) && isNodeKey(call.Call.Args[1], e) && !(e.isRoot() && loop.Contains(in))
+		}})
+		ok := len(ct.instrs) > 0
 		for _, r := range Returns(fn) {
-			if ok && ReachableFromEntry(r) && !MustPass(r, newCut().Instr(dc)) {
+			if ok && ReachableFromEntry(r) && !MustPass(r, ct) {
 				ok = false
 			}
 		}
